@@ -41,7 +41,7 @@ def all_fro(F):
         "matrix_norm(None)": u.matrix_norm(Aq), "matrix_norm('fro')": u.matrix_norm(Aq, "fro"),
         "matrix_norm('F')": u.matrix_norm(Aq, "F"), "quat_frobenius_norm.dense": u.quat_frobenius_norm(Aq),
         "quat_frobenius_norm.sparse": u.quat_frobenius_norm(sp), "matrix_norm(sparse,'fro')": u.matrix_norm(sp, "fro"),
-        "normQ": u.normQ(Aq), "normQsparse.dense": u.normQsparse(*comps),
+        "normQ": u.normQ(Aq), "normQsparse.dense": u.normQsparse(*comps), "normQsparse.numpy-matrix": u.normQsparse(*[np.asmatrix(c) for c in comps]),
         # a column given as four 1-D component vectors (how the Krylov solver holds its vectors)
         **({"normQsparse.1d": u.normQsparse(*[c[:, 0].copy() for c in comps])} if F.shape[1] == 1 else {}),
         "normQsparse.sparse": u.normQsparse(*[sparse.csr_matrix(c) for c in comps]),
